@@ -301,8 +301,11 @@ def SDoc.empty : SDoc := ⟨[], [], [], [], []⟩
 /-- libsbml's `InitialAssignment` has `setSymbol`; any other setter name is an AttributeError -/
 def iaSetterExists : Bool := iaSetter == "setSymbol"
 
-def exportInit (d : SDoc) (name : String) (f : PyFn) : Except XErr SDoc := do
-  let sym ← escapeId name prefixInit
+/-- `pre`: the prefix of the component the assignment belongs to.  The symbol of the assignment is the id that component
+    is declared with (`ids[name]`; the older code escaped the name with the prefix `IA`, which names nothing when a prefix
+    is needed) -/
+def exportInit (pre : String) (d : SDoc) (name : String) (f : PyFn) : Except XErr SDoc := do
+  let sym ← escapeId name (if iaSymbolDeclared then pre else prefixInit)
   if !iaSetterExists then .error (.attributeError iaSetter)
   let m ← sbmlifyFn f
   pure { d with inits := d.inits ++ [(sym, m)] }
@@ -311,13 +314,13 @@ def exportParam (d : SDoc) (kv : String × PyInit) : Except XErr SDoc := do
   let id ← escapeId kv.1 prefixParam
   match kv.2 with
   | .val q => pure { d with params := d.params ++ [(id, some q)] }
-  | .ia f => exportInit { d with params := d.params ++ [(id, none)] } kv.1 f
+  | .ia f => exportInit prefixParam { d with params := d.params ++ [(id, none)] } kv.1 f
 
 def exportVar (d : SDoc) (kv : String × PyInit) : Except XErr SDoc := do
   let id ← escapeId kv.1 prefixVar
   match kv.2 with
   | .val q => pure { d with species := d.species ++ [(id, some q)] }
-  | .ia f => exportInit { d with species := d.species ++ [(id, none)] } kv.1 f
+  | .ia f => exportInit prefixVar { d with species := d.species ++ [(id, none)] } kv.1 f
 
 /-- `_create_derived_parameter` / `_create_sbml_derived_variables` -/
 def exportRule (d : SDoc) (name : String) (f : PyFn) : Except XErr SDoc := do
